@@ -520,6 +520,9 @@ impl Bdd {
     }
 
     fn generate_var_dependencies(&mut self) {
+        // the lists are rebuilt from scratch, such that the repair does not depend on the current state
+        #[cfg(feature = "variablelist")]
+        self.var_deps.clear();
         #[cfg(feature = "variablelist")]
         self.nodes.iter().for_each(|node| {
             if node.var() >= Var::BOT {
